@@ -338,6 +338,38 @@ def r6_labels(idx, r):
               msg=f"the separator {sep!r} is also the sign of a negative index; grids whose labels carry raw (possibly negative) indices {users} produce labels that do not parse back")
 
 
+def r8_affine_ring_pos_pairs(idx, r):
+    """Grids whose (ring, position) numbering is an affine renaming of the indices (theta-R-Z): getRingPos and
+    getIndicesFromRingAndPos are composed symbolically and must give the identity."""
+    sg = idx.cls(SG)
+    n = 0
+    for c in idx.subclasses(sg):
+        if ".tests" in c.module.name:
+            continue
+        g, h = c.methods.get("getRingPos"), c.methods.get("getIndicesFromRingAndPos")
+        if g is None or h is None:
+            continue
+        rg = [x for x in walk_local(g.node) if isinstance(x, ast.Return)]
+        rh = [x for x in walk_local(h.node) if isinstance(x, ast.Return)]
+        simple = (len(rg) == 1 and len(rh) == 1 and isinstance(rg[0].value, ast.Tuple) and isinstance(rh[0].value, ast.Tuple) and len(rg[0].value.elts) == 2 and len(rh[0].value.elts) == 2
+                  and len(g.node.body) <= 2 and len(h.node.body) <= 2 and not any(isinstance(x, ast.Call) for x in ast.walk(rg[0].value)) and not any(isinstance(x, ast.Call) for x in ast.walk(rh[0].value)))
+        if not simple:
+            continue  # hex: R07.4 / R07.7; Cartesian: not affine (undecided clause)
+        n += 1
+        ip = g.params()[1]
+        E = ExprEval()
+        ring, pos = (E.ev(e) for e in rg[0].value.elts)
+        hp = [p for p in h.params() if p != "self"]
+        E2 = ExprEval(env={hp[0]: ring, hp[1]: pos})
+        back = [E2.ev(e) for e in rh[0].value.elts]
+        want = [Poly.atom(f"{ip}[0]"), Poly.atom(f"{ip}[1]")]
+        r.require(back == want, f"{c.name}:indices->ring/pos->indices", h, node=rh[0],
+                  msg=f"getIndicesFromRingAndPos(*getRingPos((i, j))) evaluates to ({back[0]}, {back[1]}), not (i, j): the two numberings are not inverse "
+                      "(every cell with ring != position is sent to another cell)")
+    if n < 1:
+        raise AnalysisError("no grid with an affine (ring, position) numbering found (ThetaRZGrid expected)")
+
+
 def run(idx, chk):
     chk.explanation = (
         "C07: hex unit steps extracted as exact matrices over Q(sqrt3)[pitch]; neighbour vectors of length pitch in counter-clockwise 60-degree steps for "
@@ -357,3 +389,5 @@ def run(idx, chk):
     chk.run_rule("R07.7", "the region guards of indicesToRingPos select, on each of the 13 sign classes of (i, j, i+j), the edge the decoder puts those cells on", lambda r: r7_tiling(idx, r), floor=13,
                  necessary="the maps are mutually inverse on every cell, including region boundaries")
     chk.run_rule("R07.6", "labels: same separator and field order on both sides, and the separator cannot occur inside a rendered field", lambda r: r6_labels(idx, r), floor=3, necessary="labels and indices are mutually inverse")
+    chk.run_rule("R07.8", "theta-R-Z (affine) ring/position numbering: getIndicesFromRingAndPos o getRingPos is the identity", lambda r: r8_affine_ring_pos_pairs(idx, r), floor=1,
+                 necessary="'in every grid the maps between cell indices and (ring, position) numbering are mutually inverse'")
